@@ -23,6 +23,13 @@ impl PeerSink for NullSink {
         Ok(())
     }
 }
+/// a sink whose connectivity probe is slow (embedder code may be): anything consulting it between a check and a
+/// park keeps that window open for a millisecond
+struct SlowProbeSink;
+impl PeerSink for SlowProbeSink {
+    fn send_notify(&self, _m: &str, _b: NotifyBody) -> Result<(), PeerSendError> { Ok(()) }
+    fn is_connected(&self) -> bool { std::thread::sleep(Duration::from_micros(800)); true }
+}
 fn peer(p: u64) -> PeerHandle {
     PeerHandle::new(PeerId(p), Arc::new(NullSink))
 }
@@ -170,6 +177,8 @@ pub fn run(a: &Args) -> i32 {
         // initial state: everything sent so far is one retained chunk
         tc.push_replay(0, s0, false, vec![0u8; 4]);
         tc.record_sent(s0);
+        // every other run has a peer installed whose connectivity probe is slow
+        if run % 2 == 1 { tc.set_peer(PeerHandle::new(PeerId(9), Arc::new(SlowProbeSink))); }
 
         // signaller programmes
         let nsig = if sys_prog.is_some() { 1 } else if timed { rng.gen_range(0..=2) } else { rng.gen_range(1..=3) };
@@ -314,9 +323,15 @@ pub fn run(a: &Args) -> i32 {
         verif::ev(format!("\"ev\":\"quiesce\",\"returned\":{returned},\"past_deadline\":{past_deadline}"));
         // clean up: a cancel releases a still parked waiter
         if !returned {
-            tc.cancel("cleanup");
+            // a broken implementation may lose this wake-up as well: keep signalling, and never block on the join
+            for _ in 0..200 {
+                tc.cancel("cleanup");
+                let t = Instant::now();
+                while !done.load(Ordering::SeqCst) && t.elapsed() < Duration::from_millis(50) { std::thread::sleep(Duration::from_micros(300)); }
+                if done.load(Ordering::SeqCst) { break; }
+            }
         }
-        waiter.join().unwrap();
+        if done.load(Ordering::SeqCst) { waiter.join().unwrap(); } else { drop(waiter); }
         events.extend(verif::take());
         if timed {
             timed_runs += 1;
